@@ -368,8 +368,17 @@ def r5_points(ctx, repo, cname, k):
     thorough = getattr(ctx, "tier", None) == "thorough" or getattr(getattr(ctx, "ctx", None), "tier", None) == "thorough"
     for m in ((2, 3, 4, 5, 6, 7) if thorough else (2, 3, 4, 5)):
         n = m + k - 1
-        for variant in (list(range(8)) + [-1, -2, -3] if thorough else (0, 1, -1, -2)):
-            if variant == 0:
+        for variant in (list(range(8)) + [-1, -2, -3, -4] if thorough else (0, 1, -1, -2, -4)):
+            if variant == -4:
+                # points next to the front: the distance variables a little off 0.5 - by amounts taken from the thresholds
+                # the code itself compares with (a branch that only a thin shell of the box takes), else by 0.004
+                thr = sorted({abs(float(c_.value)) for cmp_ in ast.walk(fn) if isinstance(cmp_, ast.Compare) for c_ in ast.walk(cmp_)
+                              if isinstance(c_, ast.Constant) and isinstance(c_.value, float) and 0 < abs(c_.value) < 0.5}) or [0.008]
+                offs = [t_ * f_ for t_ in thr for f_ in (0.5, 0.9)]
+                xs = [float(Fraction(2 * j + 3, 2 * n + 7)) for j in range(n)]
+                for j in range(n - k, n):
+                    xs[j] = 0.5 + offs[j % len(offs)] * (1 if j % 2 else -1)
+            elif variant == 0:
                 xs = [float(Fraction(2 * j + 3, 2 * n + 7)) for j in range(n)]
             elif variant == 1:
                 xs = [0.15 + 0.7 * ((j * 7) % 10) / 10.0 for j in range(n)]
